@@ -1,0 +1,108 @@
+//go:build verif
+
+package lossy
+
+import (
+	"errors"
+	"strings"
+)
+
+// Verification hooks for the VP8 key-frame decoder (property C04): the constant
+// tables the decoder uses, a plane-copying wrapper of DecodeFrame and a coarse
+// error classifier. Compiled only with the build tag "verif".
+
+// VerifVP8Tables returns the decoder's constant tables as flat []int slices,
+// keyed by name: coeff (CoeffsProba0, [type][band][ctx][proba]), upd
+// (CoeffsUpdateProba), bmode (KBModesProba, [top][left][proba], libwebp mode
+// numbering), ymode / uvmode (the fixed key-frame mode probabilities used by
+// parseIntraModeRow), dc (KDcTable), ac (KAcTable), zigzag (KZigzag), bands
+// (KBands, 17 entries), cat (KCat3..KCat6 with their 0 terminators, preceded by
+// the two inline categories {159,0} and {165,145,0} of getCoeffsInline).
+func VerifVP8Tables() map[string][]int {
+	out := map[string][]int{}
+	var coeff, upd []int
+	for t := 0; t < NumTypes; t++ {
+		for b := 0; b < NumBands; b++ {
+			for c := 0; c < NumCTX; c++ {
+				for p := 0; p < NumProbas; p++ {
+					coeff = append(coeff, int(CoeffsProba0[t][b][c][p]))
+					upd = append(upd, int(CoeffsUpdateProba[t][b][c][p]))
+				}
+			}
+		}
+	}
+	out["coeff"] = coeff
+	out["upd"] = upd
+	var bm []int
+	for a := 0; a < NumBModes; a++ {
+		for l := 0; l < NumBModes; l++ {
+			for p := 0; p < NumBModes-1; p++ {
+				bm = append(bm, int(KBModesProba[a][l][p]))
+			}
+		}
+	}
+	out["bmode"] = bm
+	out["ymode"] = []int{145, 156, 163, 128}
+	out["uvmode"] = []int{142, 114, 183}
+	var dc, ac, zz, bands []int
+	for _, v := range KDcTable {
+		dc = append(dc, int(v))
+	}
+	for _, v := range KAcTable {
+		ac = append(ac, int(v))
+	}
+	for _, v := range KZigzag {
+		zz = append(zz, int(v))
+	}
+	for _, v := range KBands {
+		bands = append(bands, int(v))
+	}
+	out["dc"], out["ac"], out["zigzag"], out["bands"] = dc, ac, zz, bands
+	cat := []int{159, 0, 165, 145, 0}
+	for _, t := range [][]uint8{KCat3[:], KCat4[:], KCat5[:], KCat6[:]} {
+		for _, v := range t {
+			cat = append(cat, int(v))
+		}
+	}
+	out["cat"] = cat
+	return out
+}
+
+// VerifDecodeFrame runs DecodeFrame and returns copies of the planes cropped
+// the way the public API exposes them: width x height luma samples and
+// ceil(width/2) x ceil(height/2) chroma samples, rows packed.
+func VerifDecodeFrame(data []byte) (width, height int, y, u, v []byte, err error) {
+	dec, w, h, yp, ys, up, vp, uvs, err := DecodeFrame(data)
+	if err != nil {
+		return 0, 0, nil, nil, nil, err
+	}
+	defer ReleaseDecoder(dec)
+	cw, ch := (w+1)/2, (h+1)/2
+	y = make([]byte, 0, w*h)
+	for r := 0; r < h; r++ {
+		y = append(y, yp[r*ys:r*ys+w]...)
+	}
+	u = make([]byte, 0, cw*ch)
+	v = make([]byte, 0, cw*ch)
+	for r := 0; r < ch; r++ {
+		u = append(u, up[r*uvs:r*uvs+cw]...)
+		v = append(v, vp[r*uvs:r*uvs+cw]...)
+	}
+	return w, h, y, u, v, nil
+}
+
+// VerifDecodeErrClass maps an error of DecodeFrame to "truncated" (the boolean
+// decoder ran out of data), "toolarge" (buffer limits of initFrame) or
+// "header" (anything else: frame tag, start code, dimensions, partition sizes).
+func VerifDecodeErrClass(err error) string {
+	switch {
+	case err == nil:
+		return ""
+	case errors.Is(err, errPrematureEOF), strings.Contains(err.Error(), "premature EOF"):
+		return "truncated"
+	case strings.Contains(err.Error(), "too large"):
+		return "toolarge"
+	default:
+		return "header"
+	}
+}
